@@ -414,6 +414,9 @@ def ilip(L):
     return '(IFin %s)' % C.q(L)
 
 
+_MUTATED = []     # inputs modified by f(x) / f.gradient(x) / f.derivative(x)(d), reported by probes()
+
+
 def case_of(rng, S, node, vs):
     x, d = vec(rng, S), vec(rng, S)
     f = node.py
@@ -421,6 +424,9 @@ def case_of(rng, S, node, vs):
     val = float(f(xe))
     g = S.flat(f.gradient(xe))
     dv = float(f.derivative(xe)(de))
+    if S.flat(xe) != x or S.flat(de) != d:
+        _MUTATED.append({'tree': node.desc, 'space': S.kind, 'x': x, 'x_after': S.flat(xe), 'd': d,
+                         'd_after': S.flat(de)})
     if not (math.isfinite(val) and all(math.isfinite(t) for t in g) and math.isfinite(dv)):
         return None
     term = ('(mkCase %s %s %s %s %s %s %s %s %s %s %s)'
@@ -857,6 +863,10 @@ def _probe_names(rng, tier):
 
 def probes(rng, tier):
     out = []
+    for m in _MUTATED:
+        out.append(C.Probe(False, 'call-mutates-input-%s' % m['tree'][0],
+                           'f(x), f.gradient(x) or f.derivative(x)(d) modified its argument', None, m))
+    del _MUTATED[:]
     for name in _probe_names(rng, tier):
         seed = rng.getrandbits(40)
         try:
